@@ -68,9 +68,11 @@ type kres struct {
 	Muts   []nsm   `json:"muts,omitempty"`
 }
 type op struct {
-	K   string `json:"k"` // ev | flush | wait | ckpt | restore
+	K   string `json:"k"` // ev | flush | wait | ckpt | restore | hold | release
 	Key []byte `json:"key,omitempty"`
 	Res []kres `json:"res,omitempty"`
+	// restore: redeploy from the Back-th newest checkpoint that is still restorable (0 = the latest)
+	Back int `json:"back,omitempty"`
 	// storage read fault while the state for the batch this event completes is read (ignored if the event does not
 	// fill the batch, or the case redeploys): M "off": every ReadAt of a table file at offset >= V fails;
 	// M "nth": the V-th ReadAt of a table file and all later ones fail. Disarmed when the handler is entered.
@@ -90,6 +92,44 @@ type faultCtl struct {
 	v     int64
 	reads atomic.Int64
 	hits  atomic.Int64
+}
+
+// flushGate parks the DKV's memtable flush tasks (hook points dkv.flush.begin / dkv.flush.swap) while it is held, so
+// that checkpoints can be taken while a flush is in flight.
+type flushGate struct {
+	mu     sync.Mutex
+	ch     chan struct{}
+	parked atomic.Int64
+}
+
+func (g *flushGate) hold() {
+	g.mu.Lock()
+	if g.ch == nil {
+		g.ch = make(chan struct{})
+	}
+	g.mu.Unlock()
+}
+func (g *flushGate) release() {
+	g.mu.Lock()
+	if g.ch != nil {
+		close(g.ch)
+		g.ch = nil
+	}
+	g.mu.Unlock()
+}
+func (g *flushGate) held() bool {
+	g.mu.Lock()
+	defer g.mu.Unlock()
+	return g.ch != nil
+}
+func (g *flushGate) pass() {
+	g.mu.Lock()
+	ch := g.ch
+	g.mu.Unlock()
+	if ch != nil {
+		g.parked.Add(1)
+		<-ch
+	}
 }
 
 var errInjected = errors.New("injected storage read fault")
@@ -224,7 +264,7 @@ type liveKey struct{ k, ns, e string }
 
 func genCase(r *hx.Rand, idx int, tier string) *hx.Case {
 	// every deploy scans the DKV once per owned key group (NewTimerStore), so large counts are kept rare
-	restore := r.Chance(1, 4)
+	restore := idx%4 == 3 // every fourth case redeploys; the three redeploy regimes take turns
 	counts := []int{1, 1, 1, 2, 7, 7, 256, 256, 65535}
 	if restore {
 		counts = []int{1, 1, 2, 7, 7, 200}
@@ -251,6 +291,13 @@ func genCase(r *hx.Rand, idx int, tier string) *hx.Case {
 		nOps = r.Range(10, 90)
 		big = 2500
 	}
+	pattern := -1
+	if restore {
+		pattern = (idx / 4) % 3
+		if pattern == 0 && tun.Mem < 512 {
+			tun.Mem = uint64(hx.Pick(r, []int{512, 768, 2048})) // few enough rotations for the flush to stay parked
+		}
+	}
 	if restore && nOps > 28 {
 		nOps = 28
 	}
@@ -272,7 +319,11 @@ func genCase(r *hx.Rand, idx int, tier string) *hx.Case {
 			hasCkpt = true
 			continue
 		case x < 25 && restore && hasCkpt:
-			ops = append(ops, hx.Op(op{K: "restore"}))
+			back := 0
+			if r.Chance(1, 4) {
+				back = 1
+			}
+			ops = append(ops, hx.Op(op{K: "restore", Back: back}))
 			// the generator's idea of what is live is only a heuristic; keep it
 			continue
 		}
@@ -343,6 +394,74 @@ func genCase(r *hx.Rand, idx int, tier string) *hx.Case {
 			o.Res = append(o.Res, kr)
 		}
 		ops = append(ops, hx.Op(o))
+	}
+	if restore {
+		// two targeted regimes on top of the random checkpoints / redeploys
+		mkEv := func() json.RawMessage {
+			key := hx.Pick(r, keys)
+			kr := kres{Key: key}
+			n := r.Range(1, 3)
+			for a := 0; a < n; a++ {
+				m := nsm{Ns: hx.Pick(r, nss)}
+				for b := r.Range(1, 3); b > 0; b-- {
+					if len(liveList) > 0 && r.Chance(1, 2) {
+						lk := hx.Pick(r, liveList)
+						if lk.k == string(key) {
+							m.Ns = []byte(lk.ns)
+							if r.Bool() {
+								m.Ms = append(m.Ms, mut{Put: false, E: []byte(lk.e)})
+							} else {
+								m.Ms = append(m.Ms, mut{Put: true, E: []byte(lk.e), V: genValue(r, big)})
+							}
+							continue
+						}
+					}
+					e := hx.Pick(r, ents)
+					m.Ms = append(m.Ms, mut{Put: true, E: e, V: genValue(r, big)})
+					lk := liveKey{string(key), string(m.Ns), string(e)}
+					if !live[lk] {
+						live[lk] = true
+						liveList = append(liveList, lk)
+					}
+				}
+				kr.Muts = append(kr.Muts, m)
+			}
+			return hx.Op(op{K: "ev", Key: key, Res: []kres{kr}})
+		}
+		evs := func(lo, hi int) {
+			for n := r.Range(lo, hi); n > 0; n-- {
+				ops = append(ops, mkEv())
+			}
+		}
+		switch pattern {
+		case 0:
+			// a checkpoint while a memtable flush is parked, the flush completes, a second checkpoint with no or few
+			// events in between, redeploy from the second
+			ops = append(ops, hx.Op(op{K: "hold"}))
+			{ // one value larger than the memtable: it is rotated at once and its flush parks
+				key := hx.Pick(r, keys)
+				ns, e := hx.Pick(r, nss), hx.Pick(r, ents)
+				ops = append(ops, hx.Op(op{K: "ev", Key: key, Res: []kres{{Key: key, Muts: []nsm{{Ns: ns, Ms: []mut{{Put: true, E: e, V: r.Bytes(int(tun.Mem) + r.Range(1, 40))}}}}}}}))
+				lk := liveKey{string(key), string(ns), string(e)}
+				if !live[lk] {
+					live[lk] = true
+					liveList = append(liveList, lk)
+				}
+			}
+			evs(2, 5)
+			ops = append(ops, hx.Op(op{K: "ckpt"}), hx.Op(op{K: "release"}))
+			evs(0, 1)
+			ops = append(ops, hx.Op(op{K: "ckpt"}), hx.Op(op{K: "restore"}))
+			evs(2, 4)
+		case 1:
+			// redeploy from an older, still retained checkpoint after further flushes and a further checkpoint
+			ops = append(ops, hx.Op(op{K: "ckpt"}))
+			evs(3, 8)
+			ops = append(ops, hx.Op(op{K: "wait"}))
+			evs(0, 2)
+			ops = append(ops, hx.Op(op{K: "ckpt"}), hx.Op(op{K: "restore", Back: 1}))
+			evs(2, 4)
+		}
 	}
 	return &hx.Case{
 		Name: fmt.Sprintf("gen-%d", idx),
@@ -603,11 +722,17 @@ func (eng) execute(mode string, c *hx.Case) (*hx.Result, error) {
 
 	job := &fakeJob{}
 	ctl := &faultCtl{}
+	gate := &flushGate{}
 	verifhook.Set(func(name string, args ...any) {
-		if name == "operator.deploy.fs" && len(args) == 1 {
-			if p, ok := args[0].(*storage.FileSystem); ok && *p != nil {
-				*p = &faultFS{FileSystem: *p, ctl: ctl}
+		switch name {
+		case "operator.deploy.fs":
+			if len(args) == 1 {
+				if p, ok := args[0].(*storage.FileSystem); ok && *p != nil {
+					*p = &faultFS{FileSystem: *p, ctl: ctl}
+				}
 			}
+		case "dkv.flush.begin", "dkv.flush.swap":
+			gate.pass()
 		}
 	})
 	defer verifhook.Set(nil)
@@ -634,6 +759,7 @@ func (eng) execute(mode string, c *hx.Case) (*hx.Result, error) {
 	var oldDBs []*dkv.DB
 	defer func() {
 		// let background work end before the storage goes away, then stop the operator
+		gate.release()
 		if db := opr.VerifDKV(); db != nil {
 			db.WaitOnTasks()
 		}
@@ -642,6 +768,25 @@ func (eng) execute(mode string, c *hx.Case) (*hx.Result, error) {
 		<-started
 		runtime.KeepAlive(oldDBs)
 	}()
+
+	// While flushes are parked the DKV's task queue (capacity 5) fills up and the next rotation blocks inside Put -
+	// real back-pressure. The harness then opens the gate itself instead of waiting for the script's release.
+	autoReleased := 0
+	send := func(ev *workerpb.Event) error {
+		if !gate.held() {
+			return opr.HandleEvent(ctx, "sr1", ev)
+		}
+		done := make(chan error, 1)
+		go func() { done <- opr.HandleEvent(ctx, "sr1", ev) }()
+		select {
+		case err := <-done:
+			return err
+		case <-time.After(400 * time.Millisecond):
+			autoReleased++
+			gate.release()
+			return <-done
+		}
+	}
 
 	// expected batches by the script: full at maxSize, or flushed by timer / barrier / before a redeploy
 	var steps []xstep
@@ -655,11 +800,13 @@ func (eng) execute(mode string, c *hx.Case) (*hx.Result, error) {
 	var nextCkpt uint64 = 1
 	nFlushOps, nWait, nCkpt, nRestore := 0, 0, 0, 0
 	nArmed, nFailed, nSwallowed := 0, 0, 0
+	nHold, nCkptParked, nRestoreOlder := 0, 0, 0
+	var valid []*snapshotpb.OperatorCheckpoint
 	for i, o := range ops {
 		switch o.K {
 		case "ev":
 			armed := false
-			if o.Fault != nil && !needDir && len(pending)+1 >= maxSize {
+			if o.Fault != nil && !needDir && !gate.held() && len(pending)+1 >= maxSize {
 				// no background reader may be hit: flush and compaction are done before the fault is armed, and the
 				// handler disarms it before anything is written
 				if err := opr.VerifDKV().WaitOnTasks(); err != nil {
@@ -672,7 +819,7 @@ func (eng) execute(mode string, c *hx.Case) (*hx.Result, error) {
 				armed = true
 				nArmed++
 			}
-			err := opr.HandleEvent(ctx, "sr1", &workerpb.Event{Event: &workerpb.Event_KeyedEvent{
+			err := send(&workerpb.Event{Event: &workerpb.Event_KeyedEvent{
 				KeyedEvent: &handlerpb.KeyedEvent{Key: bytes.Clone(o.Key), Value: []byte(strconv.Itoa(i))}}})
 			ctl.armed.Store(false)
 			if err != nil {
@@ -694,22 +841,37 @@ func (eng) execute(mode string, c *hx.Case) (*hx.Result, error) {
 			}
 		case "flush":
 			nFlushOps++
+			if gate.held() {
+				gate.release() // the timer path cannot be guarded against back-pressure: open the gate first
+			}
 			if tm.fire() {
 				opr.VerifSync()
 			}
 			closeBatch()
+		case "hold":
+			nHold++
+			gate.hold()
+		case "release":
+			gate.release()
+			if err := opr.VerifDKV().WaitOnTasks(); err != nil {
+				return nil, fmt.Errorf("dkv background task: %w", err)
+			}
 		case "wait":
+			if gate.held() {
+				continue // flushes are parked: waiting for them would never end
+			}
 			nWait++
 			if err := opr.VerifDKV().WaitOnTasks(); err != nil {
 				return nil, fmt.Errorf("dkv background task: %w", err)
 			}
 		case "ckpt":
 			nCkpt++
+			parkedBefore := gate.held() && gate.parked.Load() > 0
 			debugDump(opr.VerifDKV(), "before ckpt (batch may be pending)")
 			id := nextCkpt
 			nextCkpt++
 			before := len(job.ckpts)
-			err := opr.HandleEvent(ctx, "sr1", &workerpb.Event{Event: &workerpb.Event_CheckpointBarrier{
+			err := send(&workerpb.Event{Event: &workerpb.Event_CheckpointBarrier{
 				CheckpointBarrier: &workerpb.CheckpointBarrier{CheckpointId: id}}})
 			if err != nil {
 				return nil, fmt.Errorf("checkpoint barrier op %d: %w", i, err)
@@ -717,13 +879,26 @@ func (eng) execute(mode string, c *hx.Case) (*hx.Result, error) {
 			if len(job.ckpts) != before+1 {
 				return nil, fmt.Errorf("checkpoint %d was not reported to the job", id)
 			}
+			valid = append(valid, job.ckpts[len(job.ckpts)-1])
+			if gate.held() {
+				// distribution tag only: a flush is parked at its begin/swap point (it may have been enqueued by the
+				// batch the barrier itself flushed, so give its goroutine a moment to get there)
+				for w := 0; w < 30 && gate.parked.Load() == 0; w++ {
+					time.Sleep(time.Millisecond)
+				}
+				if gate.parked.Load() > 0 {
+					nCkptParked++
+				}
+			}
+			_ = parkedBefore
 			closeBatch()
 			steps = append(steps, xstep{kind: "ckpt", id: id})
 		case "restore":
-			if len(job.ckpts) == 0 {
+			if len(valid) == 0 {
 				continue // nothing to restore from: op is inert
 			}
 			nRestore++
+			gate.release()
 			// nothing may be pending in the batcher across the redeploy (a new process would have lost it anyway)
 			if tm.fire() {
 				opr.VerifSync()
@@ -739,7 +914,17 @@ func (eng) execute(mode string, c *hx.Case) (*hx.Result, error) {
 			// to write files under the same names.
 			oldDBs = append(oldDBs, old)
 			settleGC()
-			ck := job.ckpts[len(job.ckpts)-1]
+			// Restorable: the checkpoints of the current timeline. Redeploying from checkpoint X abandons every other
+			// one (the new database only knows X; it reuses the WAL and table file names of what came after X).
+			back := o.Back
+			if back < 0 || back >= len(valid) {
+				back = len(valid) - 1
+			}
+			if back > 0 {
+				nRestoreOlder++
+			}
+			ck := valid[len(valid)-1-back]
+			valid = []*snapshotpb.OperatorCheckpoint{ck}
 			if err := deploy([]*snapshotpb.OperatorCheckpoint{ck}); err != nil {
 				return nil, fmt.Errorf("redeploy from checkpoint %d: %w", ck.CheckpointId, err)
 			}
@@ -859,6 +1044,19 @@ func (eng) execute(mode string, c *hx.Case) (*hx.Result, error) {
 	if nRestore > 0 {
 		tags = append(tags, "restore")
 	}
+	if nCkptParked > 0 {
+		tags = append(tags, "checkpoint_while_flush_parked")
+	}
+	if nCkptParked > 0 && nRestore > 0 {
+		tags = append(tags, "restore_after_checkpoint_during_flush")
+	}
+	if nRestoreOlder > 0 {
+		tags = append(tags, "restore_older_retained_checkpoint")
+	}
+	if autoReleased > 0 {
+		tags = append(tags, "flush_gate_opened_by_backpressure")
+	}
+	_ = nHold
 	if nsst >= 0 {
 		tags = append(tags, bucket("sst_files", nsst))
 	}
